@@ -48,46 +48,112 @@ def is_abs_of(t, leaf, T=None):
     return isinstance(t, tuple) and t[:2] == ("fn", "abs") and t[2] == leaf
 
 
-def walk_tree(t, leaf, lo, hi, point, out, T=None):
-    """t: gamma tree whose leaves are Arr of stream insertions. Intervals are [lo, hi) over |value|."""
+def _cap_hi(iv, k, closed):
+    lo, lc, hi, hc = iv
+    if k < hi:
+        hi, hc = k, closed
+    elif k == hi:
+        hc = hc and closed
+    return _nonempty((lo, lc, hi, hc))
+
+
+def _cap_lo(iv, k, closed):
+    lo, lc, hi, hc = iv
+    if k > lo:
+        lo, lc = k, closed
+    elif k == lo:
+        lc = lc and closed
+    return _nonempty((lo, lc, hi, hc))
+
+
+def _nonempty(iv):
+    lo, lc, hi, hc = iv
+    if lo > hi or (lo == hi and not (lc and hc)):
+        return None
+    return iv
+
+
+def _contains(iv, k):
+    lo, lc, hi, hc = iv
+    return (lo < k or (lo == k and lc)) and (k < hi or (k == hi and hc))
+
+
+def split(iv, op, k):
+    """(part of iv where `|x| op k` holds, part where it does not); None = empty. Endpoints carry open/closed flags, so a
+    boundary value that lands on the wrong side of a comparison (`>` for `>=`) is seen."""
+    if op == "<":
+        return _cap_hi(iv, k, False), _cap_lo(iv, k, True)
+    if op == "<=":
+        return _cap_hi(iv, k, True), _cap_lo(iv, k, False)
+    if op == ">":
+        return _cap_lo(iv, k, False), _cap_hi(iv, k, True)
+    if op == ">=":
+        return _cap_lo(iv, k, True), _cap_hi(iv, k, False)
+    if op in ("==", "!="):
+        if not _contains(iv, k):
+            t, f = None, iv
+        else:
+            lo, lc, hi, hc = iv
+            t = (k, True, k, True)
+            if lo == k and hi == k:
+                f = None
+            elif lo == k:
+                f = (lo, False, hi, hc)
+            elif hi == k:
+                f = (lo, lc, hi, False)
+            else:
+                raise ev.Inconclusive("equality test in the interior of an interval")
+        return (t, f) if op == "==" else (f, t)
+    raise ev.Inconclusive("Print compares |value| with operator " + op)
+
+
+def walk_tree(t, leaf, iv, out, T=None):
+    """t: gamma tree whose leaves are Arr of stream insertions; iv = (lo, lo_closed, hi, hi_closed) over |value|."""
     if isinstance(t, tuple) and t and t[0] == "g":
         c = t[1]
         neg = False
         while isinstance(c, tuple) and c[0] == "not":
             c, neg = c[1], not neg
-        if not (isinstance(c, tuple) and c[0] == "cmp" and is_abs_of(c[2], leaf, T) and cval(c[3]) is not None):
+        if not (isinstance(c, tuple) and c[0] == "cmp"):
             raise ev.Inconclusive("Print branches on %s (expected comparisons of |value| with constants)" % ev.show(t[1])[:120])
-        op, k = c[1], cval(c[3])
+        op, x, y = c[1], c[2], c[3]
+        if cval(x) is not None and is_abs_of(y, leaf, T):      # constant on the left: k op |x|
+            x, y = y, x
+            op = {"<": ">", ">": "<", "<=": ">=", ">=": "<="}.get(op, op)
+        if not (is_abs_of(x, leaf, T) and cval(y) is not None):
+            raise ev.Inconclusive("Print branches on %s (expected comparisons of |value| with constants)" % ev.show(t[1])[:120])
+        k = cval(y)
         a, b = (t[3], t[2]) if neg else (t[2], t[3])   # a: branch where the comparison is true
-        if op == "<":
-            walk_tree(a, leaf, lo, min(hi, k), point, out, T)
-            walk_tree(b, leaf, max(lo, k), hi, point, out, T)
-        elif op == ">=":
-            walk_tree(a, leaf, max(lo, k), hi, point, out, T)
-            walk_tree(b, leaf, lo, min(hi, k), point, out, T)
-        elif op == "==":
-            if not (lo <= k < hi):
-                raise ev.Inconclusive("equality test outside the current interval")
-            walk_tree(a, leaf, k, k, True, out, T)
-            # the remaining part: (lo, hi) without k; only k == lo is expressible as an interval
-            if k != lo:
-                raise ev.Inconclusive("equality test in the interior of an interval")
-            walk_tree(b, leaf, lo, hi, "open-lo", out, T)
-        else:
-            raise ev.Inconclusive("Print compares |value| with operator " + op)
+        iv_t, iv_f = split(iv, op, k)
+        if iv_t is not None:
+            walk_tree(a, leaf, iv_t, out, T)
+        if iv_f is not None:
+            walk_tree(b, leaf, iv_f, out, T)
         return
-    out.append((lo, hi, point, t))
+    out.append((iv, t))
 
 
-def decade(lo, hi):
-    """k such that [lo, hi) is inside [10^k, 10^(k+1)), else None."""
+def within(iv, lo2, hi2):
+    """Is iv a subset of [lo2, hi2)?"""
+    lo, lc, hi, hc = iv
+    return lo >= lo2 and (hi < hi2 or (hi == hi2 and not hc))
+
+
+def decade(iv):
+    """k such that iv is inside [10^k, 10^(k+1)), else None."""
+    lo = iv[0]
     if lo <= 0:
         return None
     k = math.floor(math.log10(float(lo)) + 1e-12)
     for kk in (k - 1, k, k + 1):
-        if Fraction(10) ** kk <= lo and hi <= Fraction(10) ** (kk + 1):
+        if within(iv, Fraction(10) ** kk, Fraction(10) ** (kk + 1)):
             return kk
     return None
+
+
+def show_iv(iv):
+    lo, lc, hi, hc = iv
+    return "|x| in %s%s, %s%s" % ("[" if lc else "(", float(lo), "inf" if hi == INF else float(hi), "]" if hc else ")")
 
 
 def manip_of(F, item):
@@ -113,29 +179,31 @@ def check_print_number(chk, F, T):
         leaf = ("leaf", "value")
         leaves = []
         try:
-            walk_tree(r, leaf, Fraction(0), INF, False, leaves, T)
+            walk_tree(r, leaf, (Fraction(0), True, INF, False), leaves, T)
         except Narrowed as x:
             chk.violated("R1", inst, str(x), loc)
             return
         md = max_digits10(T)
         bad = []
         covered_zero = False
-        for lo, hi, point, items in leaves:
+        for iv, items in leaves:
+            lo, lc, hi, hc = iv
             if isinstance(items, ev.Str) and len(items.parts) == 1 and isinstance(items.parts[0], tuple) and items.parts[0][0] == "stream":
                 items = items.parts[0][1]
             if isinstance(items, ev.Arr):
                 items = items.items
             items = tuple(manip_of(F, i) for i in items) if isinstance(items, tuple) and not (items and items[0] == "g") else None
+            desc = show_iv(iv)
             if items is None:
-                bad.append("leaf [%s,%s) is not a sequence of insertions" % (lo, hi))
+                bad.append("leaf %s is not a sequence of insertions" % desc)
                 continue
-            desc = "|x| in %s%s, %s)" % ("(" if point == "open-lo" else "[", float(lo), "inf" if hi == INF else float(hi))
-            if point is True:
-                covered_zero = (lo == 0)
+            if lo == 0 and hi == 0:
+                covered_zero = True
                 if items != (0,):
                     bad.append("zero prints %s instead of 0" % ([ev.show(i) for i in items],))
                 continue
-            if hi <= lo:
+            if lo == 0 and lc:
+                bad.append("%s: zero is not printed by a branch of its own" % desc)
                 continue
             if len(items) != 3 or not (isinstance(items[0], tuple) and items[0][0] == "manip") or not (isinstance(items[1], tuple) and items[1][:2] == ("manip", "setprecision")):
                 bad.append("%s: inserts %s, expected notation, setprecision, value" % (desc, [ev.show(i)[:30] for i in items]))
@@ -143,14 +211,14 @@ def check_print_number(chk, F, T):
             notation, prec, val = items[0][1], items[1][2], items[2]
             if val != leaf:
                 bad.append("%s: inserts %s instead of the value itself" % (desc, ev.show(val)[:60]))
-            inside = lo >= Fraction(1, 1000) and hi <= 10000
-            outside = hi <= Fraction(1, 1000) or lo >= 10000
+            inside = within(iv, Fraction(1, 1000), Fraction(10000))
+            outside = within(iv, Fraction(0), Fraction(1, 1000)) or lo > 10000 or (lo == 10000 and lc) or lo >= 10000
             if inside:
-                k = decade(lo, hi)
+                k = decade(iv)
                 if notation != "fixed":
                     bad.append("%s: %s notation, expected fixed" % (desc, notation))
                 elif k is None:
-                    bad.append("%s: interval spans more than one decade, so the number of significant digits varies" % desc)
+                    bad.append("%s: the branch is not inside one decade [10^k, 10^(k+1)), so the number of significant digits varies" % desc)
                 elif prec != md - k:
                     bad.append("%s: fixed precision %s gives %s significant digits, expected precision %d (max_digits10 + 1 = %d digits)" % (desc, prec, prec + k + 1 if isinstance(prec, int) else "?", md - k, md + 1))
             elif outside:
@@ -166,7 +234,7 @@ def check_print_number(chk, F, T):
             chk.violated("R1", inst, "; ".join(bad[:3]), loc)
         else:
             chk.holds("R1", inst, "%d leaves partition [0, inf): fixed with max_digits10-k decimals on [10^k,10^(k+1)) for 0.001 <= |x| < 10000, scientific/max_digits10 outside, 0 for zero (max_digits10 = %d)" % (len(leaves), md), loc)
-            chk.sample({"print_leaves": [("%g" % float(lo), "inf" if hi == INF else "%g" % float(hi)) for lo, hi, p, _ in leaves]})
+            chk.sample({"print_leaves": [show_iv(iv) for iv, _ in leaves]})
     except ev.Inconclusive as x:
         chk.inconclusive("R1", inst, str(x), loc)
 
